@@ -152,6 +152,48 @@ def alias_rule(rep, u):
     return n
 
 
+def hash_length_rule(rep, u):
+    """The message hash is truncated to the curve size (leftmost bytes), never to a caller-supplied length: in every byte
+    level entry point the length handed to the bignum import of `hash` is MIN(hash_size, B) where B is a local whose only
+    definitions are computed from the curve."""
+    from rules.core import walk, strip_casts
+    n = 0
+    for fn in u.function_list:
+        if fn.relfile() != ECDSA_H or not fn.has_cfg:
+            continue
+        pn = {p["n"] for p in fn.params}
+        if not {"hash", "hash_size"} <= pn:
+            continue
+        for pos, root, c, ps in fn.calls():
+            if not (c.get("fn") or "").startswith("bn_import_") or len(c["args"]) < 3:
+                continue
+            if not core.is_ref(strip_casts(c["args"][1]), name="hash"):
+                continue
+            n += 1
+            rep.functions.add(fn.name)
+            ln_ = c["args"][2]
+            names = {r["n"]: r for r in core.refs(ln_)} if ln_.get("k") != "lazy" else {r["n"]: r for r in core.refs(ln_.get("lz") or ln_)}
+            inst = "hash-length:%s" % c["fn"]
+            desc = "%s imports the hash truncated to the curve size: MIN(hash_size, <curve bytes>)" % fn.name
+            others = [r for nm, r in names.items() if nm != "hash_size"]
+            if "hash_size" not in names or len(others) != 1:
+                rep.violated("R-SIB", fn, inst, desc, "length expression is %s" % key(ln_)[:80], c.get("ln"))
+                continue
+            o = others[0]
+            defs = [x["y"] for _p, _r, x, _ps in fn.nodes() if x.get("k") == "bin" and x["op"] == "=" and core.is_ref(strip_casts(x["x"]), id=o.get("id"))]
+            for _p, _r, x, _ps in fn.nodes():
+                if x.get("k") == "decl":
+                    defs += [v["init"] for v in x.get("vars", []) if v.get("id") == o.get("id") and v.get("init") is not None]
+            from_curve = o.get("dk") == "local" and defs and all(any(r["n"] == "curve" for r in core.refs(d.get("lz") or d)) or "curve" in key(d) for d in defs)
+            if from_curve:
+                rep.proved("R-SIB", fn, inst, desc, "MIN(hash_size, %s), %s computed from the curve" % (o["n"], o["n"]), c.get("ln"))
+            else:
+                rep.violated("R-SIB", fn, inst, desc, "the hash is cut to MIN(hash_size, %s) and '%s' is %s, not the curve size: a hash longer than that "
+                             "is truncated differently from what the signer and the bignum-level verifier use" % (
+                                 o["n"], o["n"], "a parameter of the call" if o.get("dk") == "parm" else "not derived from the curve"), c.get("ln"))
+    return n
+
+
 def run(rep, tier):
     us = driver.load_units(units(tier))
     rep.use_units(us)
@@ -174,6 +216,7 @@ def run(rep, tier):
     rep.floor("R-ERR call sites in ecdsa.h", n_err, 190)
     rep.floor("switch(curve->algo) sites", n_sw, 3)
     rep.floor("aliased-argument call shapes", alias_rule(rep, us["ecdsa:default"]), 3)
+    rep.floor("hash import sites", hash_length_rule(rep, us["ecdsa:default"]), 6)
     from props import c09
     c09.byte_api(rep, us, "C03")
     return driver.finish(
